@@ -25,7 +25,8 @@ HERE = os.path.dirname(os.path.dirname(os.path.abspath(__file__)))
 REPO = os.environ.get('PJRPC_REPO', '/repo')
 
 GLOBAL_ASSUMPTIONS = [
-    'A-engine: the VC generator (pyvc, ~4 kLoC of Python over the real AST) is itself unverified; '
+    'A-engine: the VC generator (pyvc, ~9 kLoC of Python over the real AST) is itself unverified - including its '
+    'semantics of comprehensions as order-preserving filter-maps, of loops via invariants and of quantifier instantiation; '
     'mitigated by the CPython cross-check of explored paths and native replay of every counterexample',
     'A-python: value model of DESIGN.md 3.1 (ints mathematical, floats as reals, `is` on scalars as value '
     'equality, dict iteration order arbitrary but fixed, generator laziness erased)',
@@ -33,6 +34,16 @@ GLOBAL_ASSUMPTIONS = [
     'override the methods under contract',
     'A-log: logging calls are no-ops',
     'A-resource: no MemoryError / RecursionError / signals',
+    'A-user: abstract user callables / objects behave as stated per kind in contracts/oracles.py (ORACLES, ORACLE_METHODS): '
+    'methods return JSON-encodable values or raise; middlewares return UNSET or a well-formed Response; error handlers, tracers, '
+    'validators, status functions and the exclusion predicate do not raise; their calls are recorded in the ghost trace',
+    'A-fields: field typing invariants of library objects (contracts/oracles.py FIELD_TYPES, CLASS_INVARIANTS) are assumed for '
+    'objects that exist on entry and for fields havocked on behalf of a callee',
+    'A-models: assumed models of dependencies, used wherever the code calls them: json.loads / json.dumps (uninterpreted '
+    'parsed / doc_of, three outcomes of loads), time.sleep / asyncio.sleep (record only), asyncio.gather (results in argument '
+    'order), functools.partial / wraps / lru_cache (transparent), inspect.signature / Signature.bind / BoundArguments '
+    '(pyvc/engine_inspect.py), jsonschema.validate (schema_ok), werkzeug / flask / aiohttp request and response objects, '
+    'collections.defaultdict, logging (no-op)',
 ]
 
 _W: Dict[str, Any] = {}
@@ -426,6 +437,10 @@ def report(pid: str, a, results: List[Dict[str, Any]], seed: int, wall: float, c
     cross_checked = cross_agree = 0
     assumed_used = []
     scanned = set()
+    # assumed contracts anywhere in the sidecars are used wherever the functions under proof call them
+    for q, c in sorted(cts.items()):
+        if c.assumed and q == c.target:
+            assumed_used.append(f'assumed contract (never proved; used at its call sites): {q}')
     for r in results:
         if r.get('assumed'):
             assumed_used.append(f"assumed contract (never proved): {r['function']}")
